@@ -1,5 +1,6 @@
 import Holpy.Common.Sexp
 import Holpy.C05.Model
+import Holpy.C05.NormModel
 /-
 Line protocol for the C05 model (one s-expression in, one out):
   (nat_eval E)   -> (ok N) | (err KIND)
@@ -34,6 +35,15 @@ def tyTo : Ty → Sexp
   | .bool => .atom "bool"
   | .other => .atom "other"
 
+def fnOf : String → Option Fn
+  | "sqrt" => some .sqrt | "sin" => some .sin | "cos" => some .cos | "tan" => some .tan | "cot" => some .cot
+  | "sec" => some .sec | "csc" => some .csc | "log" => some .log | "exp" => some .exp | "abs" => some .abs
+  | "atn" => some .atn | _ => none
+
+def fnName : Fn → String
+  | .sqrt => "sqrt" | .sin => "sin" | .cos => "cos" | .tan => "tan" | .cot => "cot" | .sec => "sec"
+  | .csc => "csc" | .log => "log" | .exp => "exp" | .abs => "abs" | .atn => "atn"
+
 partial def exprOf : Sexp → Option AExpr
   | .atom "tru" => some .tru
   | .atom "fls" => some .fls
@@ -58,6 +68,8 @@ partial def exprOf : Sexp → Option AExpr
   | .list [.atom "ge", t, a, b] => do some (.cmp .ge (← tyOf t) (← exprOf a) (← exprOf b))
   | .list [.atom "neg", a] => do some (.neg (← exprOf a))
   | .list [.atom "atom", t, i, v] => do some (.atom (← tyOf t) (← i.toNat?) (← v.toBool?))
+  | .list [.atom "fn", .atom f, a] => do some (.fn (← fnOf f) (← exprOf a))
+  | .atom "pi" => some .pi
   | _ => none
 
 def cmpName : Cmp → String
@@ -84,6 +96,8 @@ partial def exprTo : AExpr → Sexp
   | .cmp op t a b => .list [.atom (cmpName op), tyTo t, exprTo a, exprTo b]
   | .neg a => .list [.atom "neg", exprTo a]
   | .atom t i v => .list [.atom "atom", tyTo t, Sexp.ofNat i, Sexp.ofBool v]
+  | .fn f a => .list [.atom "fn", .atom (fnName f), exprTo a]
+  | .pi => .atom "pi"
 
 def errTo : Err → String
   | .conv => "conv"
@@ -116,7 +130,7 @@ def noVal : Nat → Val := fun _ => .b false
 
 def hasAtom : AExpr → Bool
   | .zero _ | .one _ | .tru | .fls => false
-  | .atom _ _ _ => true
+  | .atom _ _ _ | .pi | .fn _ _ => true
   | .bit0 a | .bit1 a | .suc a | .ofNat _ a | .ofInt a | .uminus _ a | .inverse a | .neg a => hasAtom a
   | .plus _ a b | .minus _ a b | .times _ a b | .divide a b | .power _ a b | .eq _ a b
   | .cmp _ _ a b => hasAtom a || hasAtom b
@@ -134,6 +148,10 @@ def handle (line : String) : String :=
   | some (.list [.atom "real_eval", e]) =>
     match exprOf e with
     | some x => resTo numTo (realEval x)
+    | none => "bad-op"
+  | some (.list [.atom "macro", .atom "real_norm", e]) =>
+    match exprOf e with
+    | some x => resTo (fun th => exprTo th.prop) (acceptRealNorm x)
     | none => "bad-op"
   | some (.list [.atom "macro", .atom name, e]) =>
     match macroOf name, exprOf e with
